@@ -66,26 +66,26 @@ package vm
 //@ func newAccountTracker() AccountTracker
 //@   deterministic[C01.no_node_local_source]
 //@   modifies nothing
-//@   ensures[C03.tracker_new] result != nil && fresh(result) && (forall a common.Address :: !(a in result))
+//@   ensures[C03.tracker_new,C02.sub_statedb] result != nil && fresh(result) && (forall a common.Address :: !(a in result))
 //@   panics never
 
 //@ func (t AccountTracker) Add(addr common.Address)
 //@   deterministic[C01.no_node_local_source]
 //@   requires t != nil
 //@   modifies contents(t)
-//@   ensures[C03.tracker_add] keys(t) == old(keys(t))[addr := true]
+//@   ensures[C03.tracker_add,C02.sub_statedb] keys(t) == old(keys(t))[addr := true]
 //@   panics never
 
 //@ func (t AccountTracker) Has(addr common.Address) bool
 //@   deterministic[C01.no_node_local_source]
 //@   modifies nothing
-//@   ensures[C03.tracker_has] result == (addr in t)
+//@   ensures[C03.tracker_has,C02.sub_statedb] result == (addr in t)
 //@   panics never
 
 //@ func (t AccountTracker) Delete(addr common.Address)
 //@   deterministic[C01.no_node_local_source]
 //@   modifies contents(t)
-//@   ensures[C03.tracker_delete] keys(t) == old(keys(t))[addr := false]
+//@   ensures[C03.tracker_delete,C02.sub_statedb] keys(t) == old(keys(t))[addr := false]
 //@   panics never
 
 // Copy: a NEW map with the same keys and values (deep copy: the result shares nothing with t).
@@ -135,21 +135,21 @@ package vm
 //@ func newAccessList2() *AccessList2
 //@   deterministic[C01.no_node_local_source]
 //@   modifies nothing
-//@   ensures[C03.al_new] result != nil && fresh(result) && fresh(result.elements) && (forall a common.Address :: !(a in result.elements)) && alOk(result)
+//@   ensures[C03.al_new,C02.sub_statedb] result != nil && fresh(result) && fresh(result.elements) && (forall a common.Address :: !(a in result.elements)) && alOk(result)
 //@   panics never
 
 //@ func (al *AccessList2) ContainsAddress(address common.Address) bool
 //@   deterministic[C01.no_node_local_source]
 //@   requires al != nil
 //@   modifies nothing
-//@   ensures[C03.al_contains_address] result == (address in al.elements)
+//@   ensures[C03.al_contains_address,C02.sub_statedb] result == (address in al.elements)
 //@   panics never
 
 //@ func (al *AccessList2) Contains(address common.Address, slot common.Hash) (addressPresent bool, slotPresent bool)
 //@   deterministic[C01.no_node_local_source]
 //@   requires al != nil
 //@   modifies nothing
-//@   ensures[C03.al_contains] addressPresent == (address in al.elements) && slotPresent == (slot in al.elements[address])
+//@   ensures[C03.al_contains,C02.sub_statedb] addressPresent == (address in al.elements) && slotPresent == (slot in al.elements[address])
 //@   panics never
 
 //@ func (al *AccessList2) AddAddress(address common.Address) bool
@@ -222,7 +222,7 @@ package vm
 //@ func newTransientStorage() transientStorage
 //@   deterministic[C01.no_node_local_source]
 //@   modifies nothing
-//@   ensures[C03.ts_new] result != nil && fresh(result) && (forall a common.Address :: !(a in result)) && tsOk(result)
+//@   ensures[C03.ts_new,C02.sub_statedb] result != nil && fresh(result) && (forall a common.Address :: !(a in result)) && tsOk(result)
 //@   panics never
 
 // Set writes into the inner map of this very address (allocating it when missing).
@@ -230,7 +230,7 @@ package vm
 //@   deterministic[C01.no_node_local_source]
 //@   requires tsOk(t)
 //@   modifies contents(t), contents(t[addr])
-//@   ensures[C03.ts_set_view] forall a common.Address, k common.Hash :: t[a][k] == ((a == addr && k == key) ? value : old(t[a][k]))
+//@   ensures[C03.ts_set_view,C02.sub_statedb] forall a common.Address, k common.Hash :: t[a][k] == ((a == addr && k == key) ? value : old(t[a][k]))
 //@   ensures[C03.ts_set_noshare] (forall a common.Address :: a != addr ==> (t[a] == old(t[a]) && (a in t) == old(a in t))) && (addr in t) && (old(addr in t) ? t[addr] == old(t[addr]) : fresh(t[addr]))
 //@   ensures tsOk(t)
 //@   panics never
@@ -238,7 +238,7 @@ package vm
 //@ func (t transientStorage) Get(addr common.Address, key common.Hash) common.Hash
 //@   deterministic[C01.no_node_local_source]
 //@   modifies nothing
-//@   ensures[C03.ts_get] result == t[addr][key]
+//@   ensures[C03.ts_get,C02.sub_statedb] result == t[addr][key]
 //@   panics never
 
 // Copy: deep copy — a new outer map and a new inner map for every address.
@@ -465,7 +465,7 @@ package vm
 //@   deterministic[C01.no_node_local_source]
 //@   requires d.bankKeeper != nil
 //@   modifies bankBal[layer(d.currentCtx)], bankSupply[layer(d.currentCtx)], authVersion[layer(d.currentCtx)], evlog[payload(d.currentCtx.EventManager())]
-//@   ensures[C04.mint_balances] forall a bytes, den string :: bankBal[layer(d.currentCtx)][a][den] == old(bankBal[layer(d.currentCtx)][a][den]) + (a == bytes(accAddr) ? coinsAmt(content(coins), den) : 0)
+//@   ensures[C04.mint_balances,C02.sub_statedb] forall a bytes, den string :: bankBal[layer(d.currentCtx)][a][den] == old(bankBal[layer(d.currentCtx)][a][den]) + (a == bytes(accAddr) ? coinsAmt(content(coins), den) : 0)
 //@   ensures[C04.mint_supply] forall den string :: bankSupply[layer(d.currentCtx)][den] == old(bankSupply[layer(d.currentCtx)][den]) + coinsAmt(content(coins), den)
 //@   panics any
 
@@ -475,7 +475,7 @@ package vm
 //@   deterministic[C01.no_node_local_source]
 //@   requires d.bankKeeper != nil
 //@   modifies bankBal[layer(d.currentCtx)], bankSupply[layer(d.currentCtx)], authVersion[layer(d.currentCtx)], evlog[payload(d.currentCtx.EventManager())]
-//@   ensures[C04.burn_balances] forall a bytes, den string :: bankBal[layer(d.currentCtx)][a][den] == old(bankBal[layer(d.currentCtx)][a][den]) - (a == bytes(accAddr) ? coinsAmt(content(coins), den) : 0)
+//@   ensures[C04.burn_balances,C02.sub_statedb] forall a bytes, den string :: bankBal[layer(d.currentCtx)][a][den] == old(bankBal[layer(d.currentCtx)][a][den]) - (a == bytes(accAddr) ? coinsAmt(content(coins), den) : 0)
 //@   ensures[C04.burn_supply] forall den string :: bankSupply[layer(d.currentCtx)][den] == old(bankSupply[layer(d.currentCtx)][den]) - coinsAmt(content(coins), den)
 //@   ensures[C15.burn_only_spendable] forall den string :: coinsAmt(content(coins), den) > 0 ==> coinsAmt(content(coins), den) <= old(bankBal[layer(d.currentCtx)][bytes(accAddr)][den]) - bankLocked(layer(d.currentCtx), hdr(d.currentCtx), bytes(accAddr), den)
 //@   panics any
@@ -510,7 +510,7 @@ package vm
 //@   deterministic[C01.no_node_local_source]
 //@   requires d != nil
 //@   modifies acctExists[layer(d.currentCtx)], acctSeq[layer(d.currentCtx)], authVersion[layer(d.currentCtx)]
-//@   ensures[C03.mut_create_if_missing,C08.working_layer_only] acctExists[layer(d.currentCtx)] == old(acctExists[layer(d.currentCtx)])[addrBytes(address) := true] && acctSeq[layer(d.currentCtx)] == old(acctSeq[layer(d.currentCtx)])
+//@   ensures[C03.mut_create_if_missing,C08.working_layer_only,C02.sub_statedb] acctExists[layer(d.currentCtx)] == old(acctExists[layer(d.currentCtx)])[addrBytes(address) := true] && acctSeq[layer(d.currentCtx)] == old(acctSeq[layer(d.currentCtx)])
 //@   panics never
 
 //@ func (d *cStateDb) SetNonce(address common.Address, n uint64)
@@ -526,14 +526,14 @@ package vm
 //@   deterministic[C01.no_node_local_source]
 //@   requires d != nil && d.touched != nil && d.evmKeeper != nil
 //@   modifies contents(d.touched), acctExists[layer(d.currentCtx)], acctSeq[layer(d.currentCtx)], authVersion[layer(d.currentCtx)], evmCodeHash[layer(d.currentCtx)], evmCodeVer[layer(d.currentCtx)]
-//@   ensures[C03.mut_touched,C08.working_layer_only] forall a common.Address :: (a in d.touched) == (a == address || old(a in d.touched))
+//@   ensures[C03.mut_touched,C08.working_layer_only,C02.sub_statedb] forall a common.Address :: (a in d.touched) == (a == address || old(a in d.touched))
 //@   panics any
 
 //@ func (d *cStateDb) SetState(address common.Address, key common.Hash, value common.Hash)
 //@   deterministic[C01.no_node_local_source]
 //@   requires d != nil && d.touched != nil && d.evmKeeper != nil
 //@   modifies contents(d.touched), acctExists[layer(d.currentCtx)], acctSeq[layer(d.currentCtx)], authVersion[layer(d.currentCtx)], evmStorage[layer(d.currentCtx)]
-//@   ensures[C03.mut_touched,C08.working_layer_only] forall a common.Address :: (a in d.touched) == (a == address || old(a in d.touched))
+//@   ensures[C03.mut_touched,C08.working_layer_only,C02.sub_statedb] forall a common.Address :: (a in d.touched) == (a == address || old(a in d.touched))
 //@   ensures[C03.mut_set_state] forall a common.Address :: a != address ==> evmStorage[layer(d.currentCtx)][a] == old(evmStorage[layer(d.currentCtx)][a])
 //@   panics any
 
@@ -541,21 +541,21 @@ package vm
 //@   deterministic[C01.no_node_local_source]
 //@   requires d != nil && d.evmKeeper != nil
 //@   modifies nothing
-//@   ensures[C03.get_state] result == evmStorage[layer(d.currentCtx)][address][hash]
+//@   ensures[C03.get_state,C02.sub_statedb] result == evmStorage[layer(d.currentCtx)][address][hash]
 //@   panics never
 
 //@ func (d *cStateDb) AddRefund(gas uint64)
 //@   deterministic[C01.no_node_local_source]
 //@   requires d != nil
 //@   modifies d.refund
-//@   ensures[C03.mut_add_refund] d.refund == old(d.refund) + gas
+//@   ensures[C03.mut_add_refund,C02.sub_statedb,C05.refund_counter] d.refund == old(d.refund) + gas
 //@   panics[C03.add_refund_overflow] iff d.refund + gas >= pow2(64)
 
 //@ func (d *cStateDb) SubRefund(gas uint64)
 //@   deterministic[C01.no_node_local_source]
 //@   requires d != nil
 //@   modifies d.refund
-//@   ensures[C03.mut_sub_refund] d.refund == old(d.refund) - gas
+//@   ensures[C03.mut_sub_refund,C02.sub_statedb,C05.refund_counter] d.refund == old(d.refund) - gas
 //@   panics[C03.sub_refund_underflow] iff gas > d.refund
 
 //@ func (d *cStateDb) GetRefund() uint64
@@ -569,14 +569,14 @@ package vm
 //@   deterministic[C01.no_node_local_source]
 //@   requires d != nil && typeof(d.transientStorage) == type(transientStorage)
 //@   modifies nothing
-//@   ensures[C03.get_transient] result == unbox(d.transientStorage, type(transientStorage))[addr][key]
+//@   ensures[C03.get_transient,C02.sub_statedb] result == unbox(d.transientStorage, type(transientStorage))[addr][key]
 //@   panics never
 
 //@ func (d *cStateDb) SetTransientState(addr common.Address, key common.Hash, value common.Hash)
 //@   deterministic[C01.no_node_local_source]
 //@   requires sdbInv(d)
 //@   modifies contents(unbox(d.transientStorage, type(transientStorage))), contents(unbox(d.transientStorage, type(transientStorage))[addr])
-//@   ensures[C03.mut_set_transient] forall a common.Address, k common.Hash :: unbox(d.transientStorage, type(transientStorage))[a][k] == ((a == addr && k == key) ? value : old(unbox(d.transientStorage, type(transientStorage))[a][k]))
+//@   ensures[C03.mut_set_transient,C02.sub_statedb] forall a common.Address, k common.Hash :: unbox(d.transientStorage, type(transientStorage))[a][k] == ((a == addr && k == key) ? value : old(unbox(d.transientStorage, type(transientStorage))[a][k]))
 //@   ensures[C03.mut_set_transient_live] sdbLive(d)
 //@   ensures[C03.mut_set_transient_sep] sdbSepTs(d)
 //@   panics never
@@ -585,7 +585,7 @@ package vm
 //@   deterministic[C01.no_node_local_source]
 //@   requires sdbInv(d)
 //@   modifies d.logs, contents(d.logs)
-//@   ensures[C03.mut_add_log] len(d.logs) == old(len(d.logs)) + 1 && d.logs[old(len(d.logs))] == log && (forall i int :: (0 <= i && i < old(len(d.logs))) ==> d.logs[i] == old(d.logs[i]))
+//@   ensures[C03.mut_add_log,C02.sub_statedb,C13.log_appended] len(d.logs) == old(len(d.logs)) + 1 && d.logs[old(len(d.logs))] == log && (forall i int :: (0 <= i && i < old(len(d.logs))) ==> d.logs[i] == old(d.logs[i]))
 //@   ensures[C03.mut_add_log_sep] sdbSepLogs(d)
 //@   panics never
 
@@ -593,21 +593,21 @@ package vm
 //@   deterministic[C01.no_node_local_source]
 //@   requires d != nil && d.accessList != nil
 //@   modifies nothing
-//@   ensures[C03.al_address_in] result == (addr in d.accessList.elements)
+//@   ensures[C03.al_address_in,C02.sub_statedb] result == (addr in d.accessList.elements)
 //@   panics never
 
 //@ func (d *cStateDb) SlotInAccessList(addr common.Address, slot common.Hash) (addressOk bool, slotOk bool)
 //@   deterministic[C01.no_node_local_source]
 //@   requires d != nil && d.accessList != nil
 //@   modifies nothing
-//@   ensures[C03.al_slot_in] addressOk == (addr in d.accessList.elements) && slotOk == (slot in d.accessList.elements[addr])
+//@   ensures[C03.al_slot_in,C02.sub_statedb] addressOk == (addr in d.accessList.elements) && slotOk == (slot in d.accessList.elements[addr])
 //@   panics never
 
 //@ func (d *cStateDb) AddAddressToAccessList(addr common.Address)
 //@   deterministic[C01.no_node_local_source]
 //@   requires sdbInv(d)
 //@   modifies contents(d.accessList.elements)
-//@   ensures[C03.mut_al_add_address] (forall a common.Address :: (a in d.accessList.elements) == (a == addr || old(a in d.accessList.elements))) && (forall a common.Address :: d.accessList.elements[a] == old(d.accessList.elements[a]))
+//@   ensures[C03.mut_al_add_address,C02.sub_statedb] (forall a common.Address :: (a in d.accessList.elements) == (a == addr || old(a in d.accessList.elements))) && (forall a common.Address :: d.accessList.elements[a] == old(d.accessList.elements[a]))
 //@   ensures[C03.mut_al_add_address_live] sdbLive(d)
 //@   ensures[C03.mut_al_add_address_sep] sdbSepAl(d)
 //@   panics never
@@ -616,7 +616,7 @@ package vm
 //@   deterministic[C01.no_node_local_source]
 //@   requires sdbInv(d)
 //@   modifies contents(d.accessList.elements), contents(d.accessList.elements[addr])
-//@   ensures[C03.mut_al_add_slot] (forall a common.Address :: (a in d.accessList.elements) == (a == addr || old(a in d.accessList.elements))) && (forall a common.Address, s common.Hash :: (s in d.accessList.elements[a]) == ((a == addr && s == slot) || old(s in d.accessList.elements[a])))
+//@   ensures[C03.mut_al_add_slot,C02.sub_statedb] (forall a common.Address :: (a in d.accessList.elements) == (a == addr || old(a in d.accessList.elements))) && (forall a common.Address, s common.Hash :: (s in d.accessList.elements[a]) == ((a == addr && s == slot) || old(s in d.accessList.elements[a])))
 //@   ensures[C03.mut_al_add_slot_live] sdbLive(d)
 //@   ensures[C03.mut_al_add_slot_sep] sdbSepAl(d)
 //@   panics never
@@ -625,14 +625,14 @@ package vm
 //@   deterministic[C01.no_node_local_source]
 //@   requires d != nil
 //@   modifies nothing
-//@   ensures[C03.has_suicided] result == (address in d.selfDestructed)
+//@   ensures[C03.has_suicided,C02.sub_statedb] result == (address in d.selfDestructed)
 //@   panics never
 
 //@ func (d *cStateDb) GetCurrentContext() sdk.Context
 //@   deterministic[C01.no_node_local_source]
 //@   requires d != nil
 //@   modifies nothing
-//@   ensures[C03.current_ctx] result == d.currentCtx
+//@   ensures[C03.current_ctx,C02.sub_statedb] result == d.currentCtx
 //@   panics never
 
 // ---------------------------------------------------------------------------------------------
@@ -652,7 +652,7 @@ package vm
 //@   deterministic[C01.no_node_local_source]
 //@   requires d != nil && d.bankKeeper != nil && d.evmKeeper != nil
 //@   modifies acctExists[layer(d.currentCtx)], acctSeq[layer(d.currentCtx)], authVersion[layer(d.currentCtx)], acctTag[layer(d.currentCtx)], acctVestEnd[layer(d.currentCtx)], bankBal[layer(d.currentCtx)], bankSupply[layer(d.currentCtx)], evlog[payload(d.currentCtx.EventManager())], evmCodeHash[layer(d.currentCtx)], evmStorage[layer(d.currentCtx)]
-//@   ensures[C15.destroy_module_refused,C08.working_layer_only] !old(acctExists[layer(d.currentCtx)][addrBytes(addr)] && implements(acctTag[layer(d.currentCtx)][addrBytes(addr)], type(sdk.ModuleAccountI)))
+//@   ensures[C15.destroy_module_refused,C08.working_layer_only,C02.sub_statedb] !old(acctExists[layer(d.currentCtx)][addrBytes(addr)] && implements(acctTag[layer(d.currentCtx)][addrBytes(addr)], type(sdk.ModuleAccountI)))
 //@   ensures[C15.destroy_protected_refused] !old(acctProtectedAt(layer(d.currentCtx), addrBytes(addr), hdrTimeUnix(hdr(d.currentCtx))))
 //@   ensures[C15.destroy_account_record] !acctExists[layer(d.currentCtx)][addrBytes(addr)] && acctSeq[layer(d.currentCtx)][addrBytes(addr)] == 0 && (forall a bytes :: a != addrBytes(addr) ==> (acctExists[layer(d.currentCtx)][a] == old(acctExists[layer(d.currentCtx)][a]) && acctSeq[layer(d.currentCtx)][a] == old(acctSeq[layer(d.currentCtx)][a]) && acctTag[layer(d.currentCtx)][a] == old(acctTag[layer(d.currentCtx)][a]) && acctVestEnd[layer(d.currentCtx)][a] == old(acctVestEnd[layer(d.currentCtx)][a])))
 //@   ensures[C15.destroy_balances] forall a bytes, den string :: bankBal[layer(d.currentCtx)][a][den] == (a == addrBytes(addr) ? 0 : old(bankBal[layer(d.currentCtx)][a][den]))
@@ -669,7 +669,7 @@ package vm
 //@   deterministic[C01.no_node_local_source]
 //@   requires d != nil && d.touched != nil && d.bankKeeper != nil && d.evmKeeper != nil
 //@   modifies contents(d.touched), acctExists[layer(d.currentCtx)], acctSeq[layer(d.currentCtx)], authVersion[layer(d.currentCtx)], acctTag[layer(d.currentCtx)], acctVestEnd[layer(d.currentCtx)], bankBal[layer(d.currentCtx)], bankSupply[layer(d.currentCtx)], evlog[payload(d.currentCtx.EventManager())], evmCodeHash[layer(d.currentCtx)], evmStorage[layer(d.currentCtx)]
-//@   ensures[C03.mut_touched,C08.working_layer_only] forall a common.Address :: (a in d.touched) == (a == address || old(a in d.touched))
+//@   ensures[C03.mut_touched,C08.working_layer_only,C02.sub_statedb] forall a common.Address :: (a in d.touched) == (a == address || old(a in d.touched))
 //@   ensures[C15.create_module_refused] !old(acctExists[layer(d.currentCtx)][addrBytes(address)] && implements(acctTag[layer(d.currentCtx)][addrBytes(address)], type(sdk.ModuleAccountI)))
 //@   ensures[C15.create_protected_refused] !old(acctProtectedAt(layer(d.currentCtx), addrBytes(address), hdrTimeUnix(hdr(d.currentCtx))))
 //@   ensures[C15.create_fresh_account] acctExists[layer(d.currentCtx)][addrBytes(address)] && acctSeq[layer(d.currentCtx)][addrBytes(address)] == 0 && evmCodeHash[layer(d.currentCtx)][addrBytes(address)] == zero(type(common.Hash))
@@ -683,7 +683,7 @@ package vm
 //@   deterministic[C01.no_node_local_source]
 //@   requires d != nil && d.touched != nil && d.selfDestructed != nil && d.touched != d.selfDestructed && d.bankKeeper != nil
 //@   modifies contents(d.touched), contents(d.selfDestructed), bankBal[layer(d.currentCtx)], bankSupply[layer(d.currentCtx)], authVersion[layer(d.currentCtx)], evlog[payload(d.currentCtx.EventManager())]
-//@   ensures[C03.mut_touched,C08.working_layer_only] forall a common.Address :: (a in d.touched) == (a == address || old(a in d.touched))
+//@   ensures[C03.mut_touched,C08.working_layer_only,C02.sub_statedb] forall a common.Address :: (a in d.touched) == (a == address || old(a in d.touched))
 //@   ensures[C15.suicide_marks_existing_only] result == old(acctExists[layer(d.currentCtx)][addrBytes(address)]) && (forall a common.Address :: (a in d.selfDestructed) == ((result && a == address) || old(a in d.selfDestructed)))
 //@   ensures[C04.suicide_burns_balance] forall a bytes, den string :: bankBal[layer(d.currentCtx)][a][den] == ((result && a == addrBytes(address) && den == d.evmDenom) ? 0 : old(bankBal[layer(d.currentCtx)][a][den]))
 //@   ensures[C04.suicide_supply] forall den string :: bankSupply[layer(d.currentCtx)][den] == old(bankSupply[layer(d.currentCtx)][den]) - ((result && den == d.evmDenom) ? old(bankBal[layer(d.currentCtx)][addrBytes(address)][den]) : 0)
@@ -694,7 +694,7 @@ package vm
 //@   deterministic[C01.no_node_local_source]
 //@   requires d != nil && d.touched != nil && d.selfDestructed != nil && d.touched != d.selfDestructed && d.bankKeeper != nil
 //@   modifies contents(d.touched), contents(d.selfDestructed), bankBal[layer(d.currentCtx)], bankSupply[layer(d.currentCtx)], authVersion[layer(d.currentCtx)], evlog[payload(d.currentCtx.EventManager())]
-//@   ensures[C15.sd6780_marks_existing_only,C08.working_layer_only] forall a common.Address :: (a in d.selfDestructed) ==> (old(a in d.selfDestructed) || (a == address && old(acctExists[layer(d.currentCtx)][addrBytes(address)])))
+//@   ensures[C15.sd6780_marks_existing_only,C08.working_layer_only,C02.sub_statedb] forall a common.Address :: (a in d.selfDestructed) ==> (old(a in d.selfDestructed) || (a == address && old(acctExists[layer(d.currentCtx)][addrBytes(address)])))
 //@   ensures[C15.sd6780_committed_accounts_kept] (!old(acctExists[layer(d.currentCtx)][addrBytes(address)])) ==> ((forall a common.Address :: (a in d.selfDestructed) == old(a in d.selfDestructed)) && bankBal[layer(d.currentCtx)] == old(bankBal[layer(d.currentCtx)]) && bankSupply[layer(d.currentCtx)] == old(bankSupply[layer(d.currentCtx)]))
 //@   ensures[C04.sd6780_supply] forall den string :: bankSupply[layer(d.currentCtx)][den] <= old(bankSupply[layer(d.currentCtx)][den])
 //@   panics any
@@ -703,14 +703,14 @@ package vm
 //@   deterministic[C01.no_node_local_source]
 //@   requires d != nil
 //@   modifies nothing
-//@   ensures[C15.exist] result == ((address in d.selfDestructed) || acctExists[layer(d.currentCtx)][addrBytes(address)])
+//@   ensures[C15.exist,C02.sub_statedb] result == ((address in d.selfDestructed) || acctExists[layer(d.currentCtx)][addrBytes(address)])
 //@   panics never
 
 //@ func (d *cStateDb) Empty(address common.Address) bool
 //@   deterministic[C01.no_node_local_source]
 //@   requires d != nil && d.evmKeeper != nil
 //@   modifies nothing
-//@   ensures[C15.empty] result == (evmCodeHash[layer(d.currentCtx)][addrBytes(address)] == zero(type(common.Hash)) && (forall den string :: bankBal[layer(d.currentCtx)][addrBytes(address)][den] == 0) && acctSeq[layer(d.currentCtx)][addrBytes(address)] == 0 && (forall k common.Hash :: evmStorage[layer(d.currentCtx)][address][k] == zero(type(common.Hash))))
+//@   ensures[C15.empty,C02.sub_statedb] result == (evmCodeHash[layer(d.currentCtx)][addrBytes(address)] == zero(type(common.Hash)) && (forall den string :: bankBal[layer(d.currentCtx)][addrBytes(address)][den] == 0) && acctSeq[layer(d.currentCtx)][addrBytes(address)] == 0 && (forall k common.Hash :: evmStorage[layer(d.currentCtx)][address][k] == zero(type(common.Hash))))
 //@   panics never
 
 // ---------------------------------------------------------------------------------------------
